@@ -44,6 +44,20 @@ def _src_key(obj, method):
     return f"{rel}:{fn.__qualname__}"
 
 
+class _Generic:
+    """comparison context for _unitary_ on symbolic parameters: `param % m == c` takes its generic outcome (False); the
+    measure-zero special family is covered by the concrete special values listed per parameter (bounded part)."""
+
+    def decide_undecided(self, what):
+        return False
+
+    def decide_poly_equal(self, a, b):
+        return False
+
+    def decide_angle_equal(self, a, b):
+        return False
+
+
 def check_unitaries():
     """_unitary_ of each family == documented matrix * documented global phase, for all parameters (all-symbolic) and at specials."""
     import cirq
@@ -65,7 +79,11 @@ def check_unitaries():
 
             def fn(a=a, sp=sp):
                 g = sp["make"](**a)
-                U = cirq.unitary(g)
+                trigpoly.CTX = _Generic()
+                try:
+                    U = cirq.unitary(g)
+                finally:
+                    trigpoly.CTX = None
                 sym_a = {n: Angle.of(v) for n, v in a.items()}
                 M = np.asarray(sp["matrix"](**sym_a), dtype=object)
                 if sp["phase"]:
@@ -213,11 +231,42 @@ STANDINS = [standin_channels, standin_numeric_grid]
 
 
 def _replay(ob, seed):
-    if not str(ob.backend).startswith("trigpoly"):
+    """numeric witness for a failed matrix obligation: the obligation's concrete parameter values, random values for the symbolic ones"""
+    import random
+    import cirq
+    from fractions import Fraction
+
+    if not str(ob.backend).startswith("trigpoly") or not ob.case:
         return None
-    r = standin_numeric_grid("thorough", seed)
-    hits = [f for f in r["_fails"] if f["args"]["gate"] == ob.case] or r["_fails"]
-    return hits[0] if hits else None
+    from contracts.C04_kernels import _install_shims
+    _install_shims()
+    specs = {**gs.eigen_families(), **gs.other_families()}
+    sp = specs.get(ob.case)
+    if sp is None:
+        return None
+    rng = random.Random(seed)
+    conc = ob.concrete or {}
+    for _ in range(40):
+        vals = {}
+        for n in sp["params"]:
+            r = conc.get(n, "")
+            try:
+                v = eval(r, {"Fraction": Fraction, "__builtins__": {}})
+                vals[n] = float(v)
+            except Exception:
+                vals[n] = rng.choice([0.37, -1.3, 0.5, 1.0, 2.25, -0.25, 0.123])
+        try:
+            U = cirq.unitary(sp["make"](**vals))
+        except Exception:
+            continue
+        sym = {n: Angle.sym(n) for n in vals}
+        M = trigpoly.numeric(sp["matrix"](**sym), vals)
+        if sp["phase"]:
+            M = M * trigpoly.numeric(np.array([[sp["phase"](**sym)]], dtype=object), vals)[0, 0]
+        if not np.allclose(U, M, atol=1e-8):
+            return dict(args=dict(gate=ob.case, parameters=vals), failed="matrix", clause=f"cirq.unitary({ob.case} with {vals}) differs from the documented matrix "
+                        f"(max abs diff {float(np.max(np.abs(U - M))):.3g})")
+    return None
 
 
 REPLAYERS = {"cirq-core/cirq/ops": _replay}
